@@ -82,6 +82,10 @@ def genuine(rng, keys, with_delegation=None):
 
     sk = rng.choice(keys)
     tags = [["t", rng.choice(["a", "b"])]] if rng.random() < 0.5 else []
+    if rng.random() < 0.35:
+        # tag shapes a client may legally sign: name-only tags, long tags, empty values, repeated names
+        tags += rng.choice([[["d"]], [["t"]], [["client"]], [["d", ""]], [["e", "ab" * 32, "", "reply"]], [["t"], ["t", "a"]],
+                            [["d"], ["d", "x"]], [["p", "cd" * 32, "wss://r.example"], ["client"]]])
     pub = sk.public_key.hex()
     if with_delegation:
         dk = CPrivateKey(bytes([rng.randrange(1, 200)]) * 32)
@@ -300,7 +304,26 @@ def ws_session(report, backend, rng, keys, tag):
             if (pushed or stored) and not authentic(facts):
                 report.property_failure("%s: a non-authentic event (%s) was %s" % (backend, m, "pushed to a subscriber" if pushed else "stored"),
                                         payload, None)
+            # whatever reaches a subscriber is judged as it arrives there: the frame's own event must be authentic
+            for f in obs.frames(n_obs):
+                if isinstance(f, list) and f and f[0] == "EVENT" and len(f) > 2 and isinstance(f[2], dict):
+                    if not authentic(facts_of(f[2])):
+                        report.property_failure(
+                            "%s: the event pushed to a subscriber is not authentic as it arrives (id is not the hash of its fields, or the "
+                            "signature does not verify): submitted tags %r, pushed tags %r" % (backend, ev.get("tags"), f[2].get("tags")),
+                            payload, None)
+                    report.count("pushed_frames_verified_" + backend)
             report.count("ws_events_" + backend)
+        # and whatever the relay serves afterwards from its store
+        if not c.done:
+            n = len(c.out)
+            c.send(["REQ", "all", {"kinds": [1, 7, 30000, 31494]}])
+            for f in c.frames(n):
+                if isinstance(f, list) and f and f[0] == "EVENT" and len(f) > 2 and isinstance(f[2], dict):
+                    if not authentic(facts_of(f[2])):
+                        report.property_failure("%s: a stored event is served in a form that is not authentic (tags %r)" % (backend, f[2].get("tags")),
+                                                {"kind": "ws", "backend": backend, "session": [{"mutation": a, "event": b} for a, b in sent]}, None)
+                    report.count("served_frames_verified_" + backend)
         report.case(("ws", backend, tag, repr([m for m, _ in sent])), nontrivial=True,
                     sample={"backend": backend, "session": [m for m, _ in sent]})
         report.count("ws_sessions_" + backend)
